@@ -179,7 +179,7 @@ theorem c03b_prefix_stable_step (s : Sys) (op : Op) (t' : Scope) (p : String) (e
     unfold NsMgr.validName
     split
     · exact h
-    · exact NsMgr.validQ_stable _ h
+    · exact NsMgr.validQ_stable _ hp h
     · exact h
   | newBundle =>
     cases t' with
